@@ -120,7 +120,15 @@ class ConstEval:
             return r.v
         return None
 
+    def _enum_value(self, d):
+        from .tables import Evaluator
+        if not hasattr(self, "_tev"):
+            self._tev = Evaluator(self.prog)
+        return self._tev._enum_const_value(d) if "_p" in d else None
+
     def _convert(self, v, t):
+        if isinstance(v, tuple) and v and v[0] == "enum" and t in INT_TYPES and len(v) > 3 and v[3] is not None:
+            return int(v[3])
         if isinstance(v, bool) and t != "bool":
             v = int(v)
         if t == "float" and isinstance(v, (int, float)):
@@ -253,7 +261,7 @@ class ConstEval:
         if k == "DeclRefExpr":
             d = ref_decl(e) or {}
             if d.get("kind") == "EnumConstantDecl":
-                return ("enum", qt(e), d.get("name"))
+                return ("enum", qt(e), d.get("name"), self._enum_value(d))
             if d.get("id") in env:
                 return env[d.get("id")]
             raise Unsupported("free variable %s at %s" % (d.get("name"), loc_str(e)))
@@ -308,10 +316,12 @@ class ConstEval:
             a, b = self.expr(ch[0], env), self.expr(ch[1], env)
             if op in ("<", "<=", ">", ">=", "==", "!="):
                 if isinstance(a, tuple) or isinstance(b, tuple):
+                    ka = a[:3] if isinstance(a, tuple) and a and a[0] == "enum" else a
+                    kb = b[:3] if isinstance(b, tuple) and b and b[0] == "enum" else b
                     if op == "==":
-                        return a == b
+                        return ka == kb
                     if op == "!=":
-                        return a != b
+                        return ka != kb
                     raise Unsupported("ordering of non-numbers")
                 return {"<": a < b, "<=": a <= b, ">": a > b, ">=": a >= b, "==": a == b, "!=": a != b}[op]
             return self._arith(op, a, b, _ty(e), e)
